@@ -113,5 +113,6 @@ func TestC19(t *testing.T) {
 		return nil
 	})
 
+	runRegression(h, c19Regression)
 	c19Docs(h)
 }
